@@ -772,3 +772,14 @@ M("c10-removeall-on-object-path", ["C10"], {"C10": ["R10.7"]}, "backend/s3afero/
 	}""", """	if err := db.bucketFs.RemoveAll(filepath.FromSlash(fullPath)); err != nil {
 		return err
 	}""")
+
+REVERT("f22-revert-prune-empty-dirs", ["C02"], {"C02": ["R02.7"]}, "0016-fix-deleting-a-nested-key-on-the-fs-backends-removes.patch")
+
+M("c02-prune-nonempty-dir", ["C02"], {"C02": ["R02.7"]}, "backend/s3afero/util.go",
+  """		if len(entries) > 0 {
+			return nil
+		}
+		if err := fs.Remove(""", """		if len(entries) > 1 {
+			return nil
+		}
+		if err := fs.Remove(""")
